@@ -1,25 +1,57 @@
 CHECK = {
     "lean_module": "MidnightZK.Props.C17",
     "harness": "h-c17",
-    "translators": ["c17_consts"],
+    "translators": ["c17_consts", "c17_sites"],
     "level": "proof",
-    "rule": "every generated circuit/relation x thread pool {1,2,3,8,16} x repetition x format pair; "
+    "rule": "every generated circuit/relation x thread pool {1,2,3,5,8,16} x repetition x (write format, read format) for "
+            "verifying keys, proving keys, parameter sets, downsized parameter sets and verifier parameters; keys of the "
+            "fixed members also from 3 (quick) / 8 child processes (other hash-map seeds, other pools); "
             "correspondence lines distinct by hash of the request line (real byte images are part of the line)",
     "explanation": "Lean theorems over an executable byte-level model of the key/parameter (de)serialisers, the "
-                   "transcript identity, the permutation construction under parallelize and downsize; the model "
-                   "parses the real byte images and recomputes transcript_repr, permutation polynomials, "
-                   "commitment scalars and Lagrange bases, compared with the real objects on every run; "
-                   "determinism, write-A/read-B, 4-way cross-verification and downsize=setup are checked on the real code",
+                   "transcript identity, the permutation construction under parallelize, downsize, and the part of a "
+                   "proving key that is not serialised (compute_lagrange_polys, lagrange_to_coeff, coeff_to_extended with "
+                   "distribute_powers_zeta, compute_polys_and_cosets) as the tail of keygen_pk computes it and as "
+                   "ProvingKey::read recomputes it. The model parses the real byte images and recomputes transcript_repr, "
+                   "permutation polynomials (and the union-find state of Assembly::copy with its invariant, against the "
+                   "plain closure of the recorded copies, also for reversed/flipped copy lists), commitment scalars, "
+                   "Lagrange bases and every recomputed part of the generated AND of the reloaded proving key (l0, l_last, "
+                   "l_active_row, coefficient and extended forms of all fixed and permutation columns, by checksum, through "
+                   "the verif_derived_parts hook), compared with the real objects on every run. The ORDER of writes, reads, "
+                   "returned arrays, destructuring patterns and struct initialisers of compute_lagrange_polys / keygen_pk / "
+                   "ProvingKey::{write,read} / ParamsKZG::{write_custom,read_custom (per format branch),downsize,from_parts,"
+                   "verifier_params} is regenerated from the sources by translators/c17_sites.py and the theorems "
+                   "lagrange_sites_agree, params_sites_agree, pk_sites_agree, downsize_statement_order, "
+                   "lagrange_rows_as_modelled are re-proved over it on every check (a one-sided reordering breaks them; this "
+                   "tie is deliberately tight: renaming the locals l0/l_last/l_active_row/g/g_lagrange or re-typing "
+                   "compute_lagrange_polys' arguments also fires). Oracle on the real code: determinism over pools x "
+                   "repetitions x processes; write-A/read-B for vk, pk, params, downsized params, verifier params with "
+                   "(a) byte identity in all formats and equal accessors, (b) monomial basis vs Lagrange basis consistency "
+                   "(commit = commit_lagrange = [f(s)]G on monomials and random polynomials), (c) same keys and "
+                   "interchangeable proofs under original vs reloaded / downsized vs fresh parameter sets; every recomputed "
+                   "part of every reloaded pk equal to the generated key's; proofs made with original and every reloaded pk "
+                   "(all five compatible format pairs) verified with original, every reloaded vk and the vk inside every "
+                   "reloaded pk; downsize = fresh setup for every k' <= k.",
     "trusted_base": [
         "element codecs of curve points and field elements are abstract in the model (laws assumed: C10/C11/C16)",
         "BLAKE2b is specified by RFC 7693 (model checked against blake2b_simd on every trepr line)",
-        "best_fft computes the DFT (C12); G1 is represented by its discrete logarithms in the downsize/commit models",
+        "best_fft computes the DFT (C12): lagrange_to_coeff / coeff_to_extended / g_to_lagrange are specified by their "
+        "defining sums; G1 is represented by its discrete logarithms in the downsize/commit models",
+        "the evaluator (Evaluator::new) is compared by its Debug rendering only (its semantics is C01's subject)",
+        "call-site orders are extracted by regular expressions from the Rust text (translators/c17_sites.py), not by a Rust parser",
     ],
     "level_text": "Kernel-checked Lean theorems about an executable model of key/parameter serialisation, transcript identity, "
-                  "permutation construction (all thread counts) and downsize, with the model run on the real byte images and the "
-                  "property's oracle (determinism, round trips, cross-verification) run on the real code on every check",
+                  "permutation construction, the recomputed part of a proving key at both call sites (all thread counts) and "
+                  "downsize, with the call-site orders regenerated from the sources, the model run on the real byte images, "
+                  "and the property's oracle (determinism across pools and processes, round trips in every format, basis "
+                  "consistency, cross-verification) run on the real code on every check",
     "level_note": "Trusted: Lean kernel, the correspondence harness and driver; point/field element codecs are abstract; "
-                  "rayon's scheduler is modelled (disjoint chunks), not verified",
+                  "rayon's scheduler is modelled (disjoint chunks), not verified. NOT proved: that the cycles of "
+                  "Assembly::copy's mapping are the classes of the requested copies (the union-find invariant is checked by "
+                  "the driver on every recorded copy list and on reordered lists, not by a theorem); keygen's synthesis "
+                  "(fixed columns, selectors) is compared with a recording backend, not modelled in Lean",
+    "technique": "byte-level executable model + kernel proofs (induction over lists / chunk layouts, ring identities); "
+                 "translator-generated constants and call-site orders with decide-theorems; dense correspondence on real "
+                 "byte images and recomputed key parts; in-process and cross-process determinism oracle",
     "assumptions": [
         "rayon executes every spawned closure exactly once",
         "the element codecs round-trip (decode(encode p) = p) and have fixed lengths",
